@@ -396,6 +396,11 @@ def corr_random(ctx, bases):
     rep.traces += len(dcases) + len(acases)
 
 
+EXTRA_BASES = {"verif_long": [["x"], ["sqrt_abs"], ["+", "*"]],
+               "verif_long2": [["x", "a"], ["log10_abs", "sqrt_abs"], ["+", "*"]]}
+LONG_LABEL_JOBS = [("verif_long", 6), ("verif_long2", 5)]
+
+
 def lib_jobs(ctx):
     nmax = 4 if ctx.quick else 5
     return nmax
@@ -405,10 +410,13 @@ def corr_library(ctx, bases):
     rep = ctx.report
     nmax = lib_jobs(ctx)
     todo = [(b, n) for b in sorted(bases) for n in range(1, nmax + 1)]
+    # user-style bases with long operator names: tree lines get long early (pretty-printer width logic, alignment clause)
+    todo += [(b, n) for b, n in LONG_LABEL_JOBS if ctx.quick or True]
 
     def run(job):
         b, n = job
-        rc, out, err = esrv.run_py(ctx.scratch, IMPL, ["library", b, str(n)], timeout=2400)
+        rc, out, err = esrv.run_py(ctx.scratch, IMPL, ["library", b, str(n)] + (["noapi"] if b in EXTRA_BASES else []),
+                                   extra={"C08_EXTRA_BASES": json.dumps(EXTRA_BASES)}, timeout=2400)
         return job, rc, out, err
     with ThreadPoolExecutor(max_workers=8) as ex:
         results = list(ex.map(run, todo))
